@@ -92,7 +92,7 @@ def run(args):
                         f["file"], f["line"]))
     rep.floor("const_api_declarations", n_decl, 600)
     rep.floor("owning_return_types", n_ret, 600)
-    rep.floor("eigen_calls_on_outputs", n_ref_calls, 600)
+    rep.floor("eigen_calls_on_outputs", n_ref_calls, 300)
     # in-place operators materialise the result before assigning:  derived() = <call>
     n_inplace = 0
     for F in fl:
